@@ -10,12 +10,17 @@ import random
 SPECIES = [1, 8, 18, 29, 6]
 
 
+FULL_PRECISION = 0.3  # share of generated numbers that are not short decimals (lossy serialization must show)
+
+
 def rfloat(rnd, lo, hi, nd=6):
-    return round(rnd.uniform(lo, hi), nd)
+    v = rnd.uniform(lo, hi)
+    return v if rnd.random() < FULL_PRECISION else round(v, nd)
 
 
 def logu(rnd, lo, hi):
-    return float(f"{math.exp(rnd.uniform(math.log(lo), math.log(hi))):.6g}")
+    v = math.exp(rnd.uniform(math.log(lo), math.log(hi)))
+    return v if rnd.random() < FULL_PRECISION else float(f"{v:.6g}")
 
 
 def gen_cell(rnd: random.Random, triclinic: float = 0.4, lo=5.0, hi=9.0, lefthanded: float = 0.1):
